@@ -59,6 +59,9 @@ type LowerCfg struct {
 	OpenPage   bool   `json:"open_page,omitempty"`
 	TransQ     int    `json:"trans_q,omitempty"`
 	CmdQ       int    `json:"cmd_q,omitempty"`
+	RWQueue    int    `json:"rw_queue,omitempty"` // >0: separate read and write queues of this size (write-drain mode)
+	WriteHigh  int    `json:"write_high,omitempty"`
+	WriteLow   int    `json:"write_low,omitempty"`
 	FreqHz     uint64 `json:"freq_hz"`
 	PortBuf    int    `json:"port_buf"`
 	TopOutBuf  int    `json:"top_out_buf,omitempty"` // >0: outgoing capacity of the Top port differs from the incoming one
@@ -256,6 +259,11 @@ func BuildOn(reg modeling.Registrar, cfg *Config, w *World) *Asm {
 
 			if cfg.Lower.CmdQ > 0 {
 				s.CommandQueueCapacity = cfg.Lower.CmdQ
+			}
+
+			if cfg.Lower.RWQueue > 0 {
+				s.ReadQueueSize, s.WriteQueueSize = cfg.Lower.RWQueue, cfg.Lower.RWQueue
+				s.WriteHighWatermark, s.WriteLowWatermark = cfg.Lower.WriteHigh, cfg.Lower.WriteLow
 			}
 
 			c := dram.MakeBuilder().WithRegistrar(a.Reg).WithSpec(s).Build(name)
